@@ -235,6 +235,55 @@ pub fn run(ctx: &mut Ctx) {
             }
         }
     }
+    // item-dependence: every way an element expression can depend on its element (var, var with
+    // default, missing, missing_some, nested iteration over a field), over computed collections of
+    // objects that differ in what they carry; the first element is not representative
+    {
+        let elems = vec![json!({"qty": 1}), json!({"sku": "x"}), json!({"qty": 0, "tags": ["x"]}), json!({}), json!({"qty": 2, "sku": "y", "tags": []})];
+        let bodies = vec![
+            json!({"var": "qty"}),
+            json!({"var": ["qty", "dflt"]}),
+            json!({"missing": ["qty"]}),
+            json!({"!": {"missing": ["qty"]}}),
+            json!({"missing_some": [1, ["qty", "sku"]]}),
+            json!({"some": [{"var": "tags"}, {"==": [{"var": ""}, "x"]}]}),
+            json!({"map": [{"var": "tags"}, {"cat": [{"var": ""}, "!"]}]}),
+            json!({"in": ["x", {"var": "tags"}]}),
+            json!({"log": {"missing": ["qty", "sku"]}}),
+            json!({"if": [{"missing": ["qty"]}, "none", {"var": "qty"}]}),
+        ];
+        let rbodies = vec![
+            json!({"missing": ["current.qty", "accumulator.n"]}),
+            json!({"merge": [{"var": "accumulator"}, {"missing": ["current.qty", "current.sku"]}]}),
+            json!({"+": [{"var": "accumulator"}, {"var": ["current.qty", 10]}]}),
+            json!({"if": [{"missing": ["current.tags"]}, {"var": "accumulator"}, {"var": "current.tags"}]}),
+            json!({"missing_some": [2, ["current.qty", "current.sku", "accumulator"]]}),
+        ];
+        for n in 1..=3usize {
+            for t in al::tuples(&elems, n) {
+                if !ctx.mine() {
+                    continue;
+                }
+                let dd = json!({"items": t, "qty": "OUTER", "sku": "OUTER", "tags": ["x"], "current": {"qty": "OUTER"}});
+                for (ch, coll) in [("var", json!({"var": "items"})), ("merge", json!({"merge": [{"var": "items"}, []]}))] {
+                    if ch == "merge" && n == 3 {
+                        continue;
+                    }
+                    for b in &bodies {
+                        ctx.edge();
+                        ctx.check(&format!("map:item-dependence:{}", ch), &op("map", vec![coll.clone(), b.clone()]), &dd);
+                        ctx.check(&format!("filter:item-dependence:{}", ch), &op("filter", vec![coll.clone(), b.clone()]), &dd);
+                    }
+                    for b in &rbodies {
+                        ctx.edge();
+                        for init in [json!(0), json!([])] {
+                            ctx.check(&format!("reduce:item-dependence:{}", ch), &op("reduce", vec![coll.clone(), b.clone(), init]), &dd);
+                        }
+                    }
+                }
+            }
+        }
+    }
     // null and non-array collections
     if ctx.mine() {
         let noncolls = vec![json!(null), json!("abc"), json!(5), json!(true), json!({}), json!({"a": 1}), json!(""), json!(0), json!(false)];
@@ -268,4 +317,5 @@ pub fn run(ctx: &mut Ctx) {
             ctx.check("nested", &r, &json!({"xs": [1, 2, 3]}));
         }
     }
+    crate::spaces::render_probes(ctx, &["map", "filter", "reduce"]);
 }
